@@ -292,6 +292,10 @@ def _rest(report, p, pr, info, reach, loader, c30, listers):
         r3.check(okc, F, c, f"a generation is skipped in the per-file listing under {deps}; only generations without a record for the path may be skipped", construct=f"generation skipped under {deps}")
     iloop = gF.by_ast[id(i)]
     logs = [c for c, tg in p.calls[F.qual] if any(t.endswith("logger.info") for t in tg) and _inside(c, i) and c.args and any("Generation" in b for b, _ in fstring_fields(c.args[0]))]
+    # the listing is what `info -sf` PRINTS: every line goes to standard output through logger.info, none of them through a logger that writes elsewhere
+    for c, tg in [(c, tg) for c, tg in p.calls[F.qual] if c in logs]:
+        other = sorted(t for t in tg if not t.endswith("logger.info"))
+        r3.check(not other, F, c, f"the per-file line may be written through {other} instead of logger.info: logger.error / logger.debug write to standard error (or nothing), so the listing on standard output lacks the line of that digest", construct=f"entry line through {other}")
     lid = {gF.node_for(c).id for c in logs}
     path = gF.find_path(iloop, {iloop.id, gF.exit.id}, avoid=lid, first_edges=[(m, l) for m, l in iloop.succ if l == "iter"])
     r3.check(bool(logs) and path is None, F, i, "an entry can be passed over without a line of output (e.g. only some actions are listed)", witness=gF.fmt_path(path) if path else None, construct="entry without output")
